@@ -52,3 +52,17 @@ Theorem C06_wait_survives_restart : forall t u w br cur n g o,
   existsb is_service_write_w (co_writes o) = true -> su_elapsed (co_sub o) = false.
 Proof. exact traffic_service_change_is_persisted. Qed.
 Print Assumptions C06_wait_survives_restart.
+
+(* ---------- API failures inside the workload control planes ---------- *)
+From RV Require Model.CtlPlane Proofs.CtlPlane.
+(* the fault f ranges over every API call of the operation: whichever one fails, a Finalize that reports success has
+   released the workload (so "Completed" is never recorded over a leaked finalizer or claim), and a failed partition-style
+   Finalize leaves the Deployment exactly as it was *)
+Theorem C06_canary_finalize_success_is_never_partial : forall p wr f d d',
+  CtlPlane.cdep_finalize p wr f d = (CtlPlane.Done, d') -> CtlPlane.cdep_released d' = true.
+Proof. exact Proofs.CtlPlane.cdep_finalize_done_means_released. Qed.
+Print Assumptions C06_canary_finalize_success_is_never_partial.
+Theorem C06_partition_finalize_failure_changes_nothing : forall p f d d',
+  CtlPlane.pdep_finalize p f d = (CtlPlane.Failed, d') -> d' = d.
+Proof. exact Proofs.CtlPlane.pdep_finalize_failed_unchanged. Qed.
+Print Assumptions C06_partition_finalize_failure_changes_nothing.
